@@ -92,8 +92,10 @@ func (s *Modifier) ModifyResponse(res *http.Response) error {
 
 	f, err := os.Open(fpth)
 	switch {
-	case os.IsNotExist(err), errors.Is(err, syscall.ENOTDIR):
+	case os.IsNotExist(err), errors.Is(err, syscall.ENOTDIR), errors.Is(err, syscall.EINVAL), errors.Is(err, syscall.ENAMETOOLONG):
 		// ENOTDIR: a parent of the requested path is a regular file.
+		// EINVAL, ENAMETOOLONG: the requested path contains a NUL byte or is longer
+		// than a file name can be; no such file exists.
 		res.StatusCode = http.StatusNotFound
 		return nil
 	case os.IsPermission(err):
